@@ -62,18 +62,21 @@ func main() {
 			os.Exit(2)
 		}
 		c := props.Registry[rf.Property]
-		if c == nil || c.Replay == nil {
-			fmt.Fprintln(os.Stderr, "no replay for", rf.Property)
+		if c == nil {
+			fmt.Fprintln(os.Stderr, "no check for", rf.Property)
 			os.Exit(2)
 		}
-		rc := &props.RunCtx{ID: rf.Property, Tier: rf.Tier, Workers: 1, Start: time.Now()}
-		ok, msg := c.Replay(rc, &rf)
-		fmt.Println(msg)
-		if ok {
-			fmt.Printf("REPRODUCED property=%s signature=%s\n", rf.Property, rf.Signature)
+		// Re-execute the check that produced the file (same tier) and look for the same violation
+		// signature; the file's path / detail is the minimal history or input it was found on.
+		rc := &props.RunCtx{ID: rf.Property, Tier: rf.Tier, Workers: props.DefaultWorkers(), Start: time.Now(), Level: c.Level}
+		rc.Deadline = rc.Start.Add(45 * time.Minute)
+		props.Active = rc
+		c.Run(rc)
+		if rc.HasSignature(rf.Signature) {
+			fmt.Printf("REPRODUCED property=%s signature=%s\n  what: %s\n", rf.Property, rf.Signature, rf.What)
 			os.Exit(1)
 		}
-		fmt.Println("not reproduced")
+		fmt.Printf("NOT-REPRODUCED property=%s signature=%s (the tree no longer shows this violation)\n", rf.Property, rf.Signature)
 		os.Exit(0)
 	case "replica":
 		if len(os.Args) < 4 {
